@@ -1197,16 +1197,20 @@ func (c *Ctx) runTags(walker *ssa.Function) {
 	var split *ssa.Call
 	parser := walker // the function that parses the tag: the walker itself, one of its private helpers, or a helper it calls (one level)
 	for _, g := range p.Region(walker) {
-		for _, ci := range core.Calls(g, "strings.Split") {
-			split, _ = ci.(*ssa.Call)
-			parser = g
+		for _, ci := range core.Calls(g) {
+			if cl, ok := ci.(*ssa.Call); ok && isSplitAll(cl) {
+				split = cl
+				parser = g
+			}
 		}
 	}
 	if split == nil {
 		for _, cal := range p.StaticCallees(walker) {
-			for _, ci := range core.Calls(cal, "strings.Split") {
-				split, _ = ci.(*ssa.Call)
-				parser = cal
+			for _, ci := range core.Calls(cal) {
+				if cl, ok := ci.(*ssa.Call); ok && isSplitAll(cl) {
+					split = cl
+					parser = cal
+				}
 			}
 		}
 	}
@@ -1744,7 +1748,7 @@ func (c *Ctx) runReject(walker *ssa.Function) {
 		// (FieldByName) or over the visible fields also finds a marker promoted from an embedded struct and misses one
 		// embedded under an alias name
 		if mf := c.markerFieldPredicate(); mf != nil {
-			how, n := "", 0
+			how, n, byName := "", 0, 0
 			for _, ci := range p.RegionCalls(isStruct) {
 				if ci.Common().StaticCallee() != mf || len(ci.Common().Args) != 1 {
 					continue
@@ -1753,6 +1757,52 @@ func (c *Ctx) runReject(walker *ssa.Function) {
 				a := core.Strip(ci.Common().Args[0])
 				if fc, ok := a.(*ssa.Call); ok && fc.Common().IsInvoke() && fc.Common().Method.Name() == "Field" && core.TypeStr(fc.Common().Value.Type()) == "reflect.Type" {
 					continue
+				}
+				// a lookup by name used only as a fast path that can answer yes — the hit must be a field of the type itself
+				// (one-element index path) and pass the marker test; the scan of the own fields still follows
+				if ex, isEx := a.(*ssa.Extract); isEx && ex.Index == 0 {
+					if fb, ok := ex.Tuple.(*ssa.Call); ok && fb.Common().IsInvoke() && fb.Common().Method.Name() == "FieldByName" {
+						direct := false
+						for _, l := range core.Lits(core.Guards(ci.Block())) {
+							if l.Kind == "cmp" && l.Op == token.EQL && l.Pol {
+								if k, isK := core.ConstInt(l.Y); isK && k == 1 {
+									if cl, ok := l.X.(*ssa.Call); ok && core.CalleeName(cl.Common()) == "builtin.len" {
+										if fr, ok := core.AsFieldLoad(cl.Common().Args[0]); ok && fr.Field == "Index" {
+											direct = true
+										}
+									}
+								}
+							}
+						}
+						if direct {
+							byName++
+							continue
+						}
+					}
+				}
+				if ld, isLd := a.(*ssa.UnOp); isLd && ld.Op == token.MUL {
+					if al, isAl := ld.X.(*ssa.Alloc); isAl {
+						if ex, isEx := core.SingleStore(al).(*ssa.Extract); isEx && ex.Index == 0 {
+							if fb, ok := ex.Tuple.(*ssa.Call); ok && fb.Common().IsInvoke() && fb.Common().Method.Name() == "FieldByName" {
+								direct := false
+								for _, l := range core.Lits(core.Guards(ci.Block())) {
+									if l.Kind == "cmp" && l.Op == token.EQL && l.Pol {
+										if k, isK := core.ConstInt(l.Y); isK && k == 1 {
+											if cl, ok := l.X.(*ssa.Call); ok && core.CalleeName(cl.Common()) == "builtin.len" {
+												if fr, ok := core.AsFieldLoad(cl.Common().Args[0]); ok && fr.Field == "Index" {
+													direct = true
+												}
+											}
+										}
+									}
+								}
+								if direct {
+									byName++
+									continue
+								}
+							}
+						}
+					}
 				}
 				// slices.ContainsFunc(reflect.VisibleFields(t), func(f) bool { return len(f.Index) == 1 && marker(f) }): the
 				// visible fields with a one-element index are exactly the type's own fields
@@ -1804,6 +1854,9 @@ func (c *Ctx) runReject(walker *ssa.Function) {
 					}
 				}
 				how = "the field handed to the marker test comes from " + core.Path(a)
+			}
+			if byName > 0 && n == byName && how == "" {
+				how = "the marker is looked up by name only: a marker embedded under another name (through an alias) is missed"
 			}
 			c.R.Add("REJECT", "isStruct|scans-own-fields", "isStruct", p.Pos(isStruct.Pos()), n > 0 && how == "",
 				"a type is a marker struct exactly when one of its own fields (Type.Field(i)) is the marker field — promoted fields and lookups by name are not used", ternary(how == "", fmt.Sprintf("%d marker test(s) on Type.Field(i)", n), how))
@@ -2121,7 +2174,7 @@ func (c *Ctx) runStructWalk(walker *ssa.Function) {
 							if ld, ok := rv.(*ssa.UnOp); ok {
 								if ia, ok := ld.X.(*ssa.IndexAddr); ok {
 									if k, ok := core.ConstInt(ia.Index); ok && k == 0 {
-										if cl, ok := ia.X.(*ssa.Call); ok && core.CalleeName(cl.Common()) == "strings.Split" {
+										if cl, ok := ia.X.(*ssa.Call); ok && isSplitAll(cl) {
 											any = true
 											continue
 										}
@@ -2141,7 +2194,7 @@ func (c *Ctx) runStructWalk(walker *ssa.Function) {
 				nameSrc["field:"+f] = true
 			} else if ia, ok := x.X.(*ssa.IndexAddr); ok {
 				if k, ok := core.ConstInt(ia.Index); ok && k == 0 {
-					if cl, ok := ia.X.(*ssa.Call); ok && core.CalleeName(cl.Common()) == "strings.Split" {
+					if cl, ok := ia.X.(*ssa.Call); ok && isSplitAll(cl) {
 						nameSrc["tag-part-0"] = true
 					}
 				}
@@ -2562,4 +2615,17 @@ func (c *Ctx) markerTypePredicate() *ssa.Function {
 		}
 	}
 	return nil
+}
+
+// isSplitAll: strings.Split(s, sep), or its spelling strings.SplitN(s, sep, n) with a negative constant n (all parts).
+func isSplitAll(cl *ssa.Call) bool {
+	switch core.CalleeName(cl.Common()) {
+	case "strings.Split":
+		return true
+	case "strings.SplitN":
+		if k, ok := core.ConstInt(cl.Common().Args[2]); ok && k < 0 {
+			return true
+		}
+	}
+	return false
 }
